@@ -85,16 +85,27 @@ def r2_recording(ctx, prog):
     def S(x):
         return ("str", x)
 
+    # the default locale's group: a plain key and a nested group (every key of it must be pre-filled, nested groups included)
+    DL = CF("Locale", keys=L(T(S("h"), K("Subkeys", K("Some", A("nested-group")))), T(S("x"), A("vx")), T(S("y"), A("vy"))), name=S("grp"), top_locale_name=S("en"))
+    KEYS = CF("BuildersKeysInner", **{"0": L(T(S("h"), CF("Subkeys", locales=A("NESTED-LOCALES"), keys=A("NESTED-KEYS"))), T(S("x"), CF("Value", defaults=A("dx"), value=A("vx"))),
+                                             T(S("y"), CF("Value", defaults=A("dy"), value=A("vy"))))})
+    LOCALES = L(DL)
+
     def run_null(keys):
         log = []
-        dl = CF("Locale", keys=L(T(S("x"), A("vx")), T(S("y"), A("vy"))), name=S("grp"), top_locale_name=S("en"))
+        dl = DL
         funcs = {k: v for k, v in absint.file_funcs(ctx.ast, PV, impl_self="ParsedValue").items() if k not in ("merge", "reduce")}
         ev = AEval(funcs=funcs, builtins={
             "push": lambda rv, a: (log.append(("push", rv, tuple(a))), UNIT)[1],
             "merge": lambda rv, a: (log.append(("merge", rv, tuple(a))), K("Ok", UNIT))[1],
-            "reduce": lambda rv, a: UNIT, "first": lambda rv, a: K("Some", dl), "unwrap_at": lambda rv, a: rv[2][0],
+            "reduce": lambda rv, a: UNIT, "unwrap_at": lambda rv, a: rv[2][0],
             "get_key": lambda rv, a: A("get_key(%s)" % absint.fmt(rv))})
         v = ev.run_fn(fn, [K("Default"), keys, S("fr"), A("DT"), A("kp"), A("strings"), A("warnings")])
+        after = (getattr(ev, "last_env", None) or {}).get(fn.params()[1] if len(fn.params()) > 1 else "keys")
+        if after is not None and after[0] == "ctor" and after[1] == "Subkeys":
+            got_l = absint.fields_of(after).get("locales")
+            if got_l is not None and got_l[0] == "list" and got_l[1][:1] == (DL,) and len(got_l[1]) == 2:
+                log.append(("push", LOCALES, (got_l[1][1],)))         # the group's locale list gained one locale
         return v, log
 
     def shown(v, log):
@@ -104,15 +115,15 @@ def r2_recording(ctx, prog):
         r.inst("ParsedValue::merge#value", "null against a plain key: defaults.push(top_locale, default_to.get_key()) and nothing else")
     else:
         r.viol("R2:ParsedValue::merge#value", "a null value no longer records (locale -> default_to) on the key: %s" % shown(v, log), file=fn.file, line=fn.line)
-    v, log = run_null(CF("Subkeys", locales=A("LOCALES"), keys=A("KEYS")))
+    v, log = run_null(CF("Subkeys", locales=LOCALES, keys=KEYS))
     dummy = log[0][1] if log else None
     fields = absint.fields_of(dummy) if dummy and dummy[0] == "ctor" else {}
-    if fields.get("keys") == L(T(S("x"), K("Default")), T(S("y"), K("Default"))) and fields.get("top_locale_name") == S("fr"):
-        r.inst("ParsedValue::merge#subkeys-dummy", "null against a group: a locale with every key of the default group set to null, named after the top locale")
+    if fields.get("keys") is not None and fields["keys"][0] == "list" and sorted(fields["keys"][1]) == sorted([T(S("h"), K("Default")), T(S("x"), K("Default")), T(S("y"), K("Default"))]) and fields.get("top_locale_name") == S("fr"):
+        r.inst("ParsedValue::merge#subkeys-dummy", "null against a group: a locale with every key of the default group (plain keys and nested groups) set to null, named after the top locale")
     else:
         r.viol("R2:ParsedValue::merge#subkeys-dummy", "a null group is not expanded to one null per key of the default group: %s" % shown(v, log), file=fn.file, line=fn.line)
-    if v == K("Ok", UNIT) and len(log) == 2 and log[0][0] == "merge" and log[0][2] == (A("KEYS"), S("fr"), A("DT"), A("kp"), A("strings"), A("warnings")) \
-            and log[1] == ("push", A("LOCALES"), (dummy,)):
+    if v == K("Ok", UNIT) and len(log) == 2 and log[0][0] == "merge" and log[0][2] == (KEYS, S("fr"), A("DT"), A("kp"), A("strings"), A("warnings")) \
+            and log[1] == ("push", LOCALES, (dummy,)):
         r.inst("ParsedValue::merge#subkeys-merge", "that locale is merged with the same top_locale / default_to and pushed to the group's locales")
     else:
         r.viol("R2:ParsedValue::merge#subkeys-merge", "the expanded group is not merged with the same default_to and recorded: %s" % shown(v, log), file=fn.file, line=fn.line)
